@@ -138,12 +138,68 @@ def check_tdm_api(strs):
     return None
 
 
+CONST_EXPRS = ["-pi**2", "-pi**2/4", "-sin(1)**2", "pi/2", "1 - pi**2", "-2*pi**2", "sqrt(2)", "-E**2", "exp(1)**2",
+               "-(pi + 1)**3", "-pi**-2", "2**pi", "-sqrt(3)**3/2"]
+
+
+def check_api_special(kind, what):
+    """values the random API generator does not produce: SymPy expressions WITHOUT free symbols (constants such
+    as -pi**2, which still go through the printer's binding-order rules) and arrays of the less common integer
+    and float dtypes"""
+    import blackbird
+    import sympy as sym
+    from blackbird.program import BlackbirdProgram
+    p = BlackbirdProgram(name="p", version="1.0")
+    if kind == "const":
+        v = sym.sympify(what)
+        want = complex(v.evalf(30))
+        p._operations = [{"op": "G", "args": [v, 0.5], "kwargs": {"k": v, "l": [v, 1]}, "modes": [0]}]
+        p._modes = {0}
+    else:
+        a = np.array([[1, 2, 3], [4, 5, 120]], dtype=getattr(np, what))
+        want = a.astype(float).tolist()
+        p._operations = [{"op": "G", "args": [a], "kwargs": {"u": a.T.copy()}, "modes": [0, 1]}]
+        p._modes = {0, 1}
+    with core.quiet():
+        try:
+            text = blackbird.dumps(p)
+        except Exception as e:  # noqa: BLE001
+            return "dumps raises %r" % (e,)
+    r = core.impl_loads(text)
+    if r[0] != "ok":
+        return "serialised script is refused: %r; text: %r" % (r[1], text[:300])
+    o = r[1].operations[0]
+    if kind == "const":
+        got = [o["args"][0], o["kwargs"]["k"], o["kwargs"]["l"][0]]
+        for g in got:
+            if not isinstance(g, (int, float, complex, np.number)) or not canon.close(g, want, 1e-12, 0.0):
+                return "the constant %s (= %r) comes back as %r; text: %r" % (what, want, g, text[:300])
+    else:
+        g = o["args"][0]
+        if not isinstance(g, np.ndarray) or g.astype(float).tolist() != want or o["kwargs"]["u"].astype(float).tolist() != np.array(want).T.tolist():
+            return "the %s array comes back as %r; text: %r" % (what, g, text[:300])
+        if what.startswith(("uint", "int")) and g.dtype.kind != "i":
+            return "the %s array comes back with dtype %s" % (what, g.dtype)
+    return None
+
+
 def replay(ctx, data):
+    if data.get("kind") == "api_special":
+        return check_api_special(data["what"][0], data["what"][1])
     if data.get("kind") == "tdm_api":
         return check_tdm_api(data["strs"])
     if data.get("kind") == "api":
         return check_spec(data["spec"])[0]
     return oracles.generic_replay(data)
+
+
+def special_stream(ctx):
+    for what in [("const", e) for e in CONST_EXPRS] + [("array", d) for d in ("uint8", "uint16", "uint32", "uint64", "int8", "int16", "int32", "float32", "float16")]:
+        ctx.count("api-special:" + what[0])
+        ctx.case(("api-special", what), nontrivial=True)
+        msg = check_api_special(*what)
+        if msg:
+            ctx.violation("API round trip: " + msg, {"kind": "api_special", "what": list(what)})
 
 
 def run(ctx):
@@ -155,6 +211,7 @@ def run(ctx):
                 "by element, symbolic values semantically); model serialiser vs real dumps text; excluded (no "
                 "syntax exists, see open findings): positional list arguments, array-valued options; non-trivial "
                 "= at least one non-integer argument; distinct by specification")
+    special_stream(ctx)
     n = ctx.n(400, 8000)
     progs = []
     for i in range(n):
